@@ -176,6 +176,14 @@ impl Direction {
         self.seq = self.seq.wrapping_add(1);
         out
     }
+    /// unseal + verify, accepting whatever sequence number the message carries (it is still covered by the signature)
+    pub fn unwrap_any_seq(&mut self, data: &[u8]) -> Result<Vec<u8>, String> {
+        if data.len() >= 16 {
+            self.seq = u32::from_le_bytes([data[12], data[13], data[14], data[15]]);
+        }
+        self.unwrap(data)
+    }
+
     /// unseal + verify a message produced by the peer's `wrap` for this direction
     pub fn unwrap(&mut self, data: &[u8]) -> Result<Vec<u8>, String> {
         if data.len() < 16 {
